@@ -108,8 +108,8 @@ def Watch.batchOf (w : Watch) (f : Nat) : Option (Nat × Nat) :=
   | some (.item k q _ _ _) => some (k, q)
   | _ => none
 
-/-- computed; or an uncomputed item whose batch has not been flushed; or a started, suspended task all of whose
-    awaited futures are settled -/
+/-- computed; or an uncomputed item whose batch has not been flushed; or a started, suspended, BLOCKED task all of
+    whose awaited futures are settled -/
 def Watch.settled (w : Watch) : Nat → Nat → Bool
   | 0, _ => false
   | fuel + 1, f =>
@@ -118,7 +118,9 @@ def Watch.settled (w : Watch) : Nat → Nat → Bool
     | some (.item k q _ _ _) => !w.flushedB.contains (k, q)
     | some (.task _) =>
       match w.lastYield.lookup f with
-      | some (_, y) => w.started f && y.leaves.all fun x => w.settled fuel x
+      | some (_, y) =>
+        -- a settled task is BLOCKED: at least one awaited future is uncomputed (otherwise it could run)
+        w.started f && (y.leaves.any fun x => !w.isDone x) && y.leaves.all fun x => w.settled fuel x
       | none => false
     | _ => false
 
